@@ -343,8 +343,8 @@ mismatch between values and axes""".format(inferred, self.values.shape)
     def axes(self, newaxes):
         if not isinstance(newaxes, Axes):
             newaxes = Axes._init(newaxes, shape=self.shape)
-        else:
-            assert [ax.size for ax in newaxes] == list(self.shape), "shape mismatch"
+        if [ax.size for ax in newaxes] != list(self.shape):
+            raise ValueError("shape mismatch: axes of size {} for an array of shape {}".format([ax.size for ax in newaxes], self.shape))
         self._axes = newaxes
 
     @property
